@@ -112,3 +112,13 @@ add("C12", "exploration",
     "Polls are only issued when a message or a close is pending (the 20 s / 408 path is sampled once in the thorough tier). For calls racing "
     "a close, or following an asynchronous backend close, the allowed set is {200,400}.",
     "stateful property-based testing (rapid): generated call histories and barrier-released concurrent groups against a session-table model", "3/C12")
+add("C13", "exploration",
+    "Generated shim open bodies (every URL syntax class of net/url: hierarchical with foreign hosts, scheme-relative, path-only, opaque, "
+    "empty, userinfo, IPv6 literals, odd ports, fragments, backslashes, control bytes, plus arbitrary byte strings) run against "
+    "websockets.Proxy in-process while the network dialer used by the code is replaced by a recorder that refuses every address but the "
+    "backend's; confinement oracle on every recorded address, and path/query/Host of the handshake when it reaches the backend. A second "
+    "property sends generated requests outside the shim prefix and compares what the wrapped handler receives. A native fuzz target "
+    "(seeded with one example per class) repeats the confinement oracle on raw bytes in the thorough tier.",
+    "Observes dials made through websocket.DefaultDialer (what the code uses); a change that dials through another path would need the "
+    "recorder to be extended. Pass-through uses clean paths only (http.ServeMux itself redirects unclean ones) and excludes the bare prefix '/shim'.",
+    "property-based testing (rapid) + native go fuzzing: URL-class generators, dial-address confinement oracle", "3/C13")
